@@ -14,6 +14,7 @@ from vlib.util import call
 from vlib.props.c05 import KINDS
 
 PROPERTY_ID = "C13"
+OPTIMIZED = ['history']   # clauses run a second time under `python -O` (assert statements stripped)
 RULE = ("histories: generated request sequences (by-path lookup incl. failing lookups, ckd, derive_path, bulk children, "
         "five address kinds, extended keys, str, address generators with next/send, BIP85, generate, Wasabi, repeats, "
         "concatenation) on ONE wallet and its shared node objects; schedules: 2..4 threads each running a generated "
